@@ -10,7 +10,7 @@ import suites
 from props.c01 import nm, em, em_ref
 
 PROP = 'C10'
-LEAN_TARGETS = ['CGV.Props.C10', 'CGV.Props.C10Multi', 'CGV.Props.C10Reach', 'CGV.Props.C10Quot']
+LEAN_TARGETS = ['CGV.Props.C10', 'CGV.Props.C10Multi', 'CGV.Props.C10Reach', 'CGV.Props.C10Quot', 'CGV.Props.C10Members']
 RULE = ('fragmented molecules in which a random subset of the cut bonds is replaced by sharing one end atom ("!" pair), '
         'incl. several shared atoms per fragment, one atom shared by three fragments (star and mutually connected), chains of shared atoms, shared aromatic atoms, shared '
         'atoms that also carry ordinary descriptors; resolution executed by implementation and Lean model (exact '
